@@ -208,11 +208,13 @@ def run_index(case):
         if nd >= 2 and pidx[0] == pidx[1] and isinstance(pt[0], np.ndarray):
             pt = (pt[0], pt[0]) + pt[2:]          # one index array object used for two dimensions
         frozen = [(x, x.copy()) for x in lt + pt if isinstance(x, np.ndarray)]
+        ldict0 = None
         lexc = _expected(dims, labels, lidx)
         pexc = _expected(dims, labels, pidx)
         nonfull_l = [i for i, d in enumerate(lidx) if d["k"] != "full"]
         nonfull_p = [i for i, d in enumerate(pidx) if d["k"] != "full"]
         ldict = {dims[i]: lt[i] for i in nonfull_l}
+        ldict0 = dict(ldict)
         pdict = {dims[i]: pt[i] for i in nonfull_p}
 
         # ---- label spellings
@@ -223,13 +225,15 @@ def run_index(case):
             if nd:
                 L.append(("a[trimmed]", lambda: a[_trim(lt, lidx)] if len(_trim(lt, lidx)) != 1 else a[_trim(lt, lidx)[0]]))
                 L.append(("a[..., last]", lambda: a[(Ellipsis, lt[-1])] if all(d["k"] == "full" for d in lidx[:-1]) else a[lt]))
-            L.append(("take(dict names)", lambda: a.take(dict(ldict))))
+            L.append(("take(dict names)", lambda: a.take(ldict)))            # (the same dict object is handed to several spellings)
+            L.append(("loc[dict]", lambda: a.loc[ldict]))
             L.append(("take(dict positions)", lambda: a.take({dims.index(k): v for k, v in ldict.items()})))
         else:
             L.append(("ix[t] (by=position)", lambda: a.ix[lt]))
             L.append(("take(t, indexing=label)", lambda: a.take(lt, indexing="label")))
         L.append(("loc[t]", lambda: a.loc[lt]))
         L.append(("sel(**)", lambda: a.sel(**ldict)))
+        L.append(("sel(** in reversed order)", lambda: a.sel(**dict(reversed(list(ldict.items()))))))     # keywords are matched by name, whatever their order
         if len(nonfull_l) == 1 and by == "label":
             i = nonfull_l[0]
             L.append(("take(i, axis=name)", lambda: a.take(lt[i], axis=dims[i])))
@@ -273,6 +277,8 @@ def run_index(case):
             _apply(lambda: a.ix[lt], lexc, vals, dims, labels, lidx, "a.ix[t] on an array created under by=position, option now label lidx=%s" % core.jsonable(lidx), sigx)
     with core.options(indexing_by=by):
         core.expect_unchanged(a, snap, "indexing", sig={"mode": "operand"})
+        check(ldict0 is None or (list(ldict.keys()) == list(ldict0.keys()) and all(ldict[k_] is ldict0[k_] for k_ in ldict0)), "index-argument-modified",
+              {"what": "the {dim: index} mapping handed to take / loc", "before": sorted(map(str, ldict0 or {})), "after": sorted(map(str, ldict))}, {"mode": "operand"})
         for x, x0 in frozen:          # index arrays handed to the library are arguments of a non-in-place operation
             check(x.dtype == x0.dtype and np.array_equal(x, x0), "index-argument-modified", {"what": "lidx=%s pidx=%s" % (core.jsonable(lidx), core.jsonable(pidx)),
                                                                                              "before": core.jsonable(x0), "after": core.jsonable(x)}, {"mode": "operand"})
